@@ -190,8 +190,12 @@ func lcProgram(b lcBehaviour, backend string, style func(k int) int) string {
 							fmt.Fprintf(&helpers, "sub helper_%d { %s }\n", k, st)
 							arm("  if (%s) { call helper_%d; }\n", cond, k)
 						}
-					case 3: // inside a switch case
-						arm("  switch (req.http.X-Req) {\n    case \"%d\":\n      if (req.restarts == %d) { %s }\n      break;\n    default:\n      break;\n  }\n", n+1, c.At, st)
+					case 3: // inside a switch case; the default clause is written last or first
+						if k%2 == 0 {
+							arm("  switch (req.http.X-Req) {\n    case \"%d\":\n      if (req.restarts == %d) { %s }\n      break;\n    default:\n      break;\n  }\n", n+1, c.At, st)
+						} else {
+							arm("  switch (req.http.X-Req) {\n    default:\n      break;\n    case \"%d\":\n      if (req.restarts == %d) { %s }\n      break;\n  }\n", n+1, c.At, st)
+						}
 					case 4: // through two levels of called subroutines
 						if scoped {
 							arm("  if (%s) { %s }\n", cond, st)
@@ -213,7 +217,8 @@ func lcProgram(b lcBehaviour, backend string, style func(k int) int) string {
 		}
 		for i, a := range arms {
 			if i == cut {
-				fmt.Fprintf(&sb, "}\nsub vcl_%s {\n", s)
+				// the second declaration announces itself: it must run at most once per visit of the subroutine
+				fmt.Fprintf(&sb, "}\nsub vcl_%s {\n  log \"d2:%s\";\n", s, s)
 			}
 			sb.WriteString(a)
 		}
@@ -442,6 +447,22 @@ func c06Replay(args []string) int {
 					if len(p) == 3 {
 						visits = append(visits, [2]string{p[1], p[2]})
 					}
+				}
+			}
+			// a second declaration of a lifecycle subroutine runs at most once per visit of that subroutine
+			d2, vis := map[string]int{}, map[string]int{}
+			for _, lg := range rep.Logs {
+				if strings.HasPrefix(lg.Message, "d2:") {
+					d2[strings.TrimPrefix(lg.Message, "d2:")]++
+				}
+			}
+			for _, v := range visits {
+				vis[v[0]]++
+			}
+			for sname, cnt := range d2 {
+				if cnt > vis[sname] {
+					res.Mismatch = append(res.Mismatch, map[string]any{"obs": "second-declaration-runs", "req": k + 1, "sub": sname,
+						"expected_at_most": vis[sname], "got": cnt})
 				}
 			}
 			o.Acts = []string{}
